@@ -37,6 +37,45 @@ def shrink(ck, exe, formula, pred):
     return " ".join(toks)
 
 
+def shrink_pair(ck, exe, driver, formula, budget=36):
+    """delta-debug on tokens while implementation and model both accept the formula and render it
+    differently (a smaller formula makes the value comparison of the two parses decisive)"""
+    toks = [t for t in L.TOKEN_RE.findall(formula) if not t.isspace()]
+
+    def differs(ts):
+        line = ["P " + " ".join(ts)]
+        a, _ = L.run_lines(ck, exe, line)
+        m, _ = L.run_lines(ck, driver, line)
+        return a[0].startswith("ok") and m[0].startswith("ok") and "-DIFF " not in a[0] and a[0] != m[0]
+
+    changed = True
+    while changed and budget > 0:
+        changed = False
+        # whole parenthesised / call sub-terms first, then single tokens
+        cands = []
+        for i, t in enumerate(toks):
+            if t == "(":
+                depth = 0
+                for j in range(i, len(toks)):
+                    depth += toks[j] == "("
+                    depth -= toks[j] == ")"
+                    if depth == 0:
+                        cands.append(toks[:i] + ["x"] + toks[j + 1:])
+                        break
+        cands += [toks[:i] + toks[i + 1:] for i in range(len(toks))]
+        for cand in cands:
+            if not cand or len(cand) >= len(toks):
+                continue
+            budget -= 1
+            if differs(cand):
+                toks = cand
+                changed = True
+                break
+            if budget <= 0:
+                break
+    return " ".join(toks)
+
+
 def pattern(formula):
     """input class of a formula: identifiers -> v, numbers -> n"""
     out = []
@@ -124,6 +163,7 @@ def run(ck):
     samples = []
     distinct = set()
     unclassified = {}
+    nshrunk = 0
     for i, (kind, line, f) in enumerate(reqs):
         a = L.classify(impl[i]) if i < len(impl) else "missing"
         m = model[i] if i < len(model) else "missing"
@@ -182,6 +222,14 @@ def run(ck):
             what = "getValue() of '%s' is %r, the formula's value is %r" % (f, va, vm)
         elif a.startswith("ok") and m.startswith("ok"):
             # different parse: is the value different too?  (the property's own predicate)
+            if nshrunk < 3 and kind != "rewrite":
+                nshrunk += 1
+                f = shrink_pair(ck, exe, driver, f)
+                rep["minimised"] = f
+                ia, _ = L.run_lines(ck, exe, ["P " + f])
+                ma, _ = L.run_lines(ck, driver, ["P " + f])
+                a, m = L.classify(ia[0]), ma[0]
+                rep.update({"implementation_minimised": a, "model_minimised": m})
             pts = [L.random_point(rng) for _ in range(6)]
             vl = ["V %s;%s" % (L.bind_str(p), f) for p in pts]
             ia, _ = L.run_lines(ck, exe, vl)
